@@ -176,3 +176,27 @@ Example exp_neg_9_below_threshold : Qle_bool (exp_neg 9) WEIGHT_REJECTION_THRESH
 Proof. vm_compute. reflexivity. Qed.
 Example exp_neg_6_76_above_threshold : Qltb WEIGHT_REJECTION_THRESHOLD (exp_neg (169 # 25)) = true.  (* 2.6^2 *)
 Proof. vm_compute. reflexivity. Qed.
+
+(* ------------------------------------------------------------------ C19: a peal-speed change bends the line without a jump *)
+(* the blow position that the real time t corresponds to is the same before and after the change,
+   and the slope is the new interval *)
+Theorem speed_change_is_continuous r p t s r' :
+  r_start r = Some s -> ~ r_interval r == 0 -> (0 < p)%Z -> r_round r = false ->
+  regr_change_setting r KPealSpeed (VInt p) t = Ok r' ->
+  let ni := peal_speed_to_blow_interval (inject_Z p) (r_stage r) in
+  r_interval r' = ni /\
+  (forall s', r_start r' = Some s' -> ~ ni == 0 -> (t - s') / ni == (t - s) / r_interval r).
+Proof.
+  intros Hs Hi Hp Hr. unfold regr_change_setting. cbn [to_int bind].
+  destruct (Z.leb_spec p 0) as [|_]; [lia|].
+  Opaque peal_speed_to_blow_interval qsub qmul qdiv qadd qround Qeqb.
+  cbn.
+  destruct (Qeqb (r_interval r) 0) eqn:Z.
+  { Transparent Qeqb. unfold Qeqb in Z. apply Qeq_bool_iff in Z. contradiction. }
+  rewrite Hs. intros H. inversion H; subst. clear H. cbn. split; [reflexivity|].
+  intros s' E Hn. inversion E; subst. clear E. rewrite Hr.
+  Transparent peal_speed_to_blow_interval qsub qmul qdiv qadd qround.
+  cbn [qround].
+  rewrite qsub_eq, qmul_eq, qdiv_eq, qsub_eq.
+  set (ni := peal_speed_to_blow_interval (inject_Z p) (r_stage r)) in *. field. split; assumption.
+Qed.
